@@ -7,17 +7,19 @@ namespace Ferrous.Watch
 
 /-! ### WATCH of one key -/
 
+/-- the connection record after registering `k` with baseline `b` -/
+def watchConn (q : Q) (cn : Conn) (k : Key) (b : Nat) : Conn :=
+  { cn with watched := ⟨k, b, cn.db⟩ ::
+      cn.watched.filter (fun w => !(decide (w.key = k) && (!q.perDb || decide (w.regDb = cn.db)))) }
+
 /-- the registering branch of `watchKey` -/
 def watchKeyNew (q : Q) (c : Nat) (s : State) (k : Key) : State :=
-  let cn := s.conn c
-  let r := (s.tracker cn.db (shardOf k)).register k
-  (s.setTracker cn.db (shardOf k) r.1).setConn c
-    { cn with watched := ⟨k, r.2, cn.db⟩ ::
-        cn.watched.filter (fun w => !(decide (w.key = k) && (!q.perDb || decide (w.regDb = cn.db)))) }
+  (s.setTracker (s.conn c).db (shardOf k) ((s.tracker (s.conn c).db (shardOf k)).register k).1).setConn c
+    (watchConn q (s.conn c) k ((s.tracker (s.conn c).db (shardOf k)).register k).2)
 
 theorem watchKey_cases (q : Q) (c : Nat) (s : State) (k : Key) :
     watchKey q c s k = s ∨ watchKey q c s k = watchKeyNew q c s k := by
-  unfold watchKey watchKeyNew
+  unfold watchKey watchKeyNew watchConn
   simp only []
   split
   · exact Or.inl rfl
@@ -36,7 +38,6 @@ theorem counter_watchKey (q : Q) (c : Nat) (s : State) (k : Key) (d : Nat) (k' :
   · rw [h]
   · rw [h]
     unfold watchKeyNew
-    simp only []
     rw [counter_setConn]
     exact counter_setTracker_same s (s.conn c).db (shardOf k) ((s.tracker (s.conn c).db (shardOf k)).register k).1
       (fun _ => rfl) d k'
@@ -51,13 +52,13 @@ theorem conn_watchKey_other (q : Q) (c : Nat) (s : State) (k : Key) (c' : Nat) (
     (watchKey q c s k).conn c' = s.conn c' := by
   rcases watchKey_cases q c s k with e | e
   · rw [e]
-  · rw [e]; unfold watchKeyNew; simp only []; rw [conn_setConn]; simp [h]
+  · rw [e]; unfold watchKeyNew; rw [conn_setConn]; simp [h]
 
 theorem db_watchKey (q : Q) (c : Nat) (s : State) (k : Key) (c' : Nat) :
     ((watchKey q c s k).conn c').db = (s.conn c').db := by
   rcases watchKey_cases q c s k with e | e
   · rw [e]
-  · rw [e]; unfold watchKeyNew; simp only []; rw [conn_setConn]
+  · rw [e]; unfold watchKeyNew; rw [conn_setConn]
     split
     · rename_i h; subst h; rfl
     · rfl
